@@ -36,7 +36,24 @@ def case(draw):
         e2e.add_hidden_ends(draw, desc)  # the inner chain ends must follow the same flags
     if kind == "dropwater" and not desc.get("waters"):
         desc["waters"] = [dict(draw(strat.water()), chain="W", seq=300)]
-    if kind == "dropwater" and draw(st.integers(0, 1)) == 0:
+    if kind == "dropwater" and draw(st.integers(0, 2)) == 0:
+        # files without chain ids: chains are separated by TER records only, and a chain's waters are
+        # listed before its TER
+        for ch in desc["chains"]:
+            ch["id"] = " "
+            ch["ter"] = True
+            ch.pop("altmod", None)
+        for k, ch in enumerate(desc["chains"]):
+            ch["start"] = 1 + 20 * k
+            ch.pop("nums", None)
+            ch.pop("icodes", None)
+        if draw(st.booleans()):
+            desc["chains"][0]["oxt"] = False
+        for w in desc["waters"]:
+            w["chain"] = " "
+        desc["order"] = "waters-before-ter"
+        desc.pop("cif", None)
+    elif kind == "dropwater" and draw(st.integers(0, 1)) == 0:
         # water numbering that collides with the solute's (files without chain ids whose waters are
         # numbered from 1, merged files): a water is identified by its residue NAME, not by its number
         c0 = desc["chains"][0]
